@@ -419,3 +419,33 @@ PROPS["C19"] = {
             thorough={"cases": 1000, "size": 200, "shards": 8}),
     ],
 }
+
+VALGRIND_WRAPPER = ["valgrind", "-q", "--error-exitcode=0", "--track-origins=no", "--show-mismatched-frees=no", "--num-callers=12"]
+
+PROPS["C20"] = {
+    "level": "exploration",
+    "engine": "rapidcheck + valgrind memcheck",
+    "technique": "property-based generation of codec / decoder / TECMP / status / builder workloads, replayed under valgrind memcheck with definedness client requests on every output byte, plus a poisoned-heap differential (0xAA vs 0x55 fill)",
+    "rule": "cases = generated workloads (encoder call sequences incl. padded frames and status / vendor / control messages, decoder "
+            "histories with reassembly, TECMP frames, status operation sequences, payload-builder sequences on reused objects, codec "
+            "round trips); natively every case runs twice with fresh heap blocks filled 0xAA / 0x55 and all outputs must be bit-identical; "
+            "a sample of the non-trivial cases is replayed under memcheck; non-trivial = the workload exercises padding, non-data "
+            "messages, reassembly, TECMP conversion, status tracking or builders and produced output bytes; distinct = distinct serialized cases",
+    "assumptions": COMMON_ASSUMPTIONS + ["memcheck decides definedness exactly for the executed cases (heap and stack); the poisoning differential covers "
+                                         "heap origins only",
+                                         "any memcheck error raised while a case runs counts (the harness itself is clean on the unchanged tree)"],
+    "level_text": "Generated workloads under a definedness checker: every byte of every frame, packet getter, payload byte and built "
+                  "payload is checked with VALGRIND_CHECK_MEM_IS_DEFINED, memcheck's own uninitialised-value reports fail the case, and "
+                  "natively the outputs must not depend on the fill pattern of fresh heap blocks.",
+    "level_note": "Trusted: valgrind memcheck 3.19; g++ -O1 -g build without sanitizers.",
+    "stages": [
+        pbt("poisoned_heap_differential", "pbt_C20", variant="plain", replay_wrapper=VALGRIND_WRAPPER,
+            quick={"cases": 1500, "size": 100, "shards": 4, "dump_max": 80, "dump_every": 3},
+            thorough={"cases": 20000, "size": 200, "shards": 16, "dump_max": 150, "dump_every": 20}),
+        {"kind": "memcheck", "name": "memcheck_definedness", "driver": "pbt_C20", "src": "props/pbt_C20.cpp", "variant": "plain",
+         "cases_from": "poisoned_heap_differential", "builds": [("pbt_C20", "plain", "props/pbt_C20.cpp", (), ("-lrapidcheck",))],
+         "quick": {"max_cases": 320, "procs": 16}, "thorough": {"max_cases": 2400, "procs": 16, "timeout": 14400}},
+    ],
+}
+ENGINES.append({"name": "monitors", "path": "/verif/harness/props/pbt_C19.cpp, pbt_C20.cpp", "serves_properties": ["C19", "C20"],
+                "kind_free_text": "generated workloads under ThreadSanitizer (C19) and valgrind memcheck + poisoning allocator (C20)"})
